@@ -30,6 +30,16 @@ Theorem c10_writes_append : forall ws bs, forallb is_write ws = true -> forallb 
   brun bs ws = (map (fun _ => ODone) ws, bs ++ enc_all ws).
 Proof. exact writes_run. Qed.
 
+(* a write that reports an error has not touched the buffer: a refused write is the identity on Len / Bytes *)
+Theorem c10_failed_write_identity : forall bs w, is_write w = true -> is_err (fst (bstep bs w)) = true ->
+  snd (bstep bs w) = bs.
+Proof. exact failed_write_identity. Qed.
+(* ... so the accepted writes of a sequence in which some limited strings are refused still read back, value for
+   value, and leave the buffer empty (valid = fits its Go type, or is a limited string over its limit) *)
+Theorem c10_roundtrip_with_refused : forall ws, forallb is_write ws = true -> forallb valid ws = true ->
+  brun [] (ws ++ map reader_of (filter accepted ws)) = (map wout ws ++ map val_of (filter accepted ws), []).
+Proof. exact roundtrip_with_refused. Qed.
+
 (* one codec at a time *)
 Theorem c10_read_write : forall w rest, is_write w = true -> wok w = true ->
   bstep (enc_op w ++ rest) (reader_of w) = (val_of w, rest).
@@ -71,7 +81,7 @@ Theorem c10_decode_total : forall bs o, is_read o = true ->
   fst (bstep bs o) <> OPanic /\ shape_ok o (fst (bstep bs o)) = true /\ exists pre, bs = pre ++ snd (bstep bs o).
 Proof. exact decode_total. Qed.
 (* on every history of writes, reads, rewrites and queries every outcome has the shape the monitor demands *)
-Theorem c10_history_shapes : forall ops init, hist_ok ops (fst (brun init ops)) = true.
+Theorem c10_history_shapes : forall ops init, hist_ok init ops (fst (brun init ops)) = true.
 Proof. exact hist_sound. Qed.
 
 (* truncation inside one encoding, at every byte: an error, and nothing is left *)
@@ -150,6 +160,8 @@ Print Assumptions c10_case_sound.
 Print Assumptions c10_codec_roundtrip.
 Print Assumptions c10_reads_leave_continuation.
 Print Assumptions c10_writes_append.
+Print Assumptions c10_failed_write_identity.
+Print Assumptions c10_roundtrip_with_refused.
 Print Assumptions c10_read_write.
 Print Assumptions c10_uvarint_roundtrip.
 Print Assumptions c10_zigzag_roundtrip.
